@@ -33,7 +33,7 @@ META = {
         'polynomial coefficients (and all distinct grid points in the symbolic case).'),
     'functions_encoded': ['numdifftools.fornberg.fd_derivative', 'numdifftools.fornberg.fd_weights',
                           'numdifftools.fornberg.fd_weights_all', 'numdifftools.fornberg._fd_weights_all'],
-    'bounds': {'quick': 'n=1..4, m=1..3, N in {2mm+2, 2mm+3, 2mm+6}; 4 grid families (uniform/non-uniform x increasing/decreasing); '
+    'bounds': {'quick': 'n=1..4, m=1..3, N in {2mm+2, 2mm+3, 2mm+6}; 6 grid families (uniform / non-uniform / width 1e-7 / nearly uniform with 1e-7 jitter, increasing and decreasing); '
                         'symbolic grid N=4,5 for (n,m)=(1,1)',
                'thorough': 'n=1..6, m=1..4, N additionally 24; symbolic grid N=4..6'},
     'outside_claim': ['floating-point rounding scaled by grid conditioning', 'grids longer than 24 points'],
@@ -48,6 +48,16 @@ def grid(family, N, seed):
     F = Fraction
     if family.startswith('uniform'):
         g = [F(i, 8) - 1 for i in range(N)]
+    elif family.startswith('tiny'):
+        # a non-uniform grid of total width ~1e-7 (absolute differences far below any fixed absolute tolerance)
+        acc = F(3, 7)
+        g = []
+        for _ in range(N):
+            g.append(acc)
+            acc += F(int(rng.integers(1, 40)), 64 * 10 ** 9)
+    elif family.startswith('jitter'):
+        # unit spacing with a relative jitter of ~1e-7 (nearly uniform, but not uniform)
+        g = [F(i, 8) + F(int(rng.integers(-50, 50)), 8 * 10 ** 8) for i in range(N)]
     else:
         acc = F(-1)
         g = []
@@ -67,7 +77,7 @@ def jobs(tier, seed):
             mm = n // 2 + m
             Ns = [2 * mm + 2, 2 * mm + 3, 2 * mm + 6] + ([24] if th and 2 * mm + 6 < 24 else [])
             for N in Ns:
-                for fam in ('uniform-inc', 'uniform-dec', 'random-inc', 'random-dec'):
+                for fam in ('uniform-inc', 'uniform-dec', 'random-inc', 'random-dec', 'tiny-inc', 'jitter-dec'):
                     out.append(('grid-n%d-m%d-N%d-%s' % (n, m, N, fam), dict(kind='grid', n=n, m=m, N=N, family=fam, seed=seed)))
     for N in ((4, 5, 6) if th else (4, 5)):
         out.append(('symbolic-N%d' % N, dict(kind='symbolic', n=1, m=1, N=N, family='', seed=seed)))
@@ -130,7 +140,9 @@ def on_grid(job, fb, n, m, N, family, seed):
     xf = np.array([float(v) for v in g])
     duf = fb.fd_derivative(cm.poly_fun(cs)(xf), xf, n, m)
     dus = np.array([float(v) for v in sn.evaluate(du, asg)])
-    if np.max(np.abs(duf - dus)) > 1e-5 * (1 + np.max(np.abs(dus))):
+    hmin = float(np.min(np.abs(np.diff(xf))))
+    vtol = 1e-5 * (1 + np.max(np.abs(dus))) + 1e-12 * np.sum(np.abs(cs)) * (1 + np.max(np.abs(xf))) ** deg / hmin ** n * (2 * mm + 2) ** 2
+    if np.max(np.abs(duf - dus)) > vtol:
         job.error('trace validation mismatch n=%d m=%d N=%d %s: %r vs %r' % (n, m, N, family, duf, dus))
     job.validated += 1
 
@@ -230,7 +242,9 @@ def replay(cex):
             return True, 'output shape %s for input %s' % (du.shape, xf.shape)
         want = np.array([float(cm.poly_deriv_at([Fraction(v) for v in c], n, Fraction(float(x)))) for x in xf])
         hmin = np.min(np.abs(np.diff(xf)))
-        tol = 1e-6 * (np.max(np.abs(want)) + np.sum(np.abs(c)) * (1 + np.max(np.abs(xf))) ** deg / hmin ** n * 1e-6 + 1e-12)
+        width = np.max(xf) - np.min(xf)
+        # rounding of the samples (eps*|p|) is amplified by ~1/hmin^n; anything far above that is a wrong stencil
+        tol = 1e-6 * np.max(np.abs(want)) + 1e-13 * np.sum(np.abs(c)) * (1 + np.max(np.abs(xf))) ** deg / hmin ** n * (2 * mm + 2) ** 2 + 1e-12
         bad = np.flatnonzero(np.abs(du - want) > tol)
         if bad.size:
             i = int(bad[0])
